@@ -418,7 +418,7 @@ where
                     debug!("unparseable auth cookie payload received, skipping auth cookie");
                     break 'transfer;
                 };
-                let expires_at = cookie.timestamp + self.auth_cookie_expiry;
+                let expires_at = cookie.timestamp.saturating_add(self.auth_cookie_expiry);
                 let now = SystemTime::now()
                     .duration_since(UNIX_EPOCH)
                     .expect("time error")
